@@ -480,6 +480,16 @@ struct SetDriver : DriverBase<SetDriver<Set, K, N, MCmp, Which, Transparent>> {
                     it       = r.first;
                     inserted = r.second;
                 } else if (op == "emplace") {
+                    if constexpr (std::is_same_v<K, int>) {
+                        if (st.k[2] % 3 == 0) {
+                            // an argument of another type: the key is constructed from it first (here: truncated), and
+                            // only then looked up - also with a transparent comparator, as std::set does
+                            auto r   = v.emplace(static_cast<double>(k) + 0.75);
+                            it       = r.first;
+                            inserted = r.second;
+                            return;
+                        }
+                    }
                     auto r   = v.emplace(k);
                     it       = r.first;
                     inserted = r.second;
